@@ -22,7 +22,7 @@ type vUnder struct {
 	accepted    int
 }
 
-func (u *vUnder) Header() http.Header { return nil }
+func (u *vUnder) Header() http.Header  { return nil }
 func (u *vUnder) WriteHeader(code int) { u.headerCodes = append(u.headerCodes, code) }
 func (u *vUnder) Write(b []byte) (int, error) {
 	u.writes++
